@@ -15,7 +15,7 @@ import time
 
 VERIF = os.path.dirname(os.path.dirname(os.path.abspath(__file__)))
 REPO = os.environ.get('BB_REPO', '/repo')
-LEAN_DIR = os.path.join(VERIF, 'lean')
+LEAN_DIR = os.environ.get('BB_LEAN_DIR', os.path.join(VERIF, 'lean'))
 BBDRV = os.path.join(LEAN_DIR, '.lake', 'build', 'bin', 'bbdrv')
 EVIDENCE_DIR = os.path.join(VERIF, 'evidence')
 OUT_DIR = os.path.join(VERIF, 'out')          # replay files, logs (git-ignored)
